@@ -367,7 +367,19 @@ type GlobalInv struct {
 	File string
 }
 
+// Binding: for a struct type T and a definition d(T) []byte, every field of T (minus `except`) is bound by d.
+type Binding struct {
+	Pred   string
+	Type   string
+	Pkg    string
+	Props  []string
+	Except []string
+	File   string
+	Line   int
+}
+
 type ContractFile struct {
+	Bindings   []*Binding
 	GlobalInvs []*GlobalInv
 	Contracts []*Contract
 	Preds     []*Pred
@@ -378,11 +390,12 @@ type ContractFile struct {
 var funcHdrRe = regexp.MustCompile(`^(extern\s+)?func\s+(?:\(\s*\*?\s*([A-Za-z0-9_./-]+)\s*\)\s*)?([A-Za-z0-9_./-]+)\s*(\(.*)?$`)
 var predHdrRe = regexp.MustCompile(`^pred\s+([A-Za-z0-9_]+)\s*\((.*?)\)\s*:=\s*(.*)$`)
 var lemmaHdrRe = regexp.MustCompile(`^(lemma|axiom)\s+([A-Za-z0-9_]+)\s*\((.*)\)\s*$`)
+var bindingRe = regexp.MustCompile(`^binding\s+([A-Za-z0-9_]+)\s*\(\s*([A-Za-z0-9_.]+)\s*\)\s*$`)
 var loopRe = regexp.MustCompile(`^loop\s+([0-9]+)\s*:\s*(invariant|decreases)\s+(.*)$`)
 
 var clauseKeywords = map[string]bool{"func": true, "extern": true, "pred": true, "lemma": true, "axiom": true, "requires": true, "ensures": true,
 	"assigns": true, "pure": true, "wrapping": true, "trusted": true, "inline": true, "props": true, "loop": true, "let": true,
-	"induct": true, "uses": true, "bounded": true, "excluding": true, "global-inv": true}
+	"induct": true, "uses": true, "bounded": true, "excluding": true, "global-inv": true, "binding": true, "except": true}
 
 func parseContractFile(path string, pkgPath string) (*ContractFile, error) {
 	f, err := os.Open(path)
@@ -424,6 +437,7 @@ func parseContractFile(path string, pkgPath string) (*ContractFile, error) {
 	}
 	var cur *Contract
 	var curLemma *Lemma
+	var curBinding *Binding
 	mk := func(text string, line int) (*Clause, error) {
 		e, err := parseSpec(text)
 		if err != nil {
@@ -451,6 +465,7 @@ func parseContractFile(path string, pkgPath string) (*ContractFile, error) {
 				}
 			}
 			curLemma = nil
+			curBinding = nil
 			cf.Contracts = append(cf.Contracts, cur)
 		case kw == "pred":
 			m := predHdrRe.FindStringSubmatch(t)
@@ -466,7 +481,19 @@ func parseContractFile(path string, pkgPath string) (*ContractFile, error) {
 				return nil, err
 			}
 			cf.Preds = append(cf.Preds, &Pred{Name: m[1], Pkg: pkgPath, Params: bs, Body: c, File: path})
+			cur, curLemma, curBinding = nil, nil, nil
+		case kw == "binding":
+			m := bindingRe.FindStringSubmatch(t)
+			if m == nil {
+				return nil, fmt.Errorf("%s:%d: bad binding header %q", path, rl.line, t)
+			}
+			curBinding = &Binding{Pred: m[1], Type: m[2], Pkg: pkgPath, File: path, Line: rl.line}
+			cf.Bindings = append(cf.Bindings, curBinding)
 			cur, curLemma = nil, nil
+		case kw == "except" && curBinding != nil:
+			curBinding.Except = append(curBinding.Except, strings.Fields(rest)...)
+		case kw == "props" && curBinding != nil && cur == nil && curLemma == nil:
+			curBinding.Props = strings.Fields(rest)
 		case kw == "global-inv":
 			c, err := mk(rest, rl.line)
 			if err != nil {
@@ -485,6 +512,7 @@ func parseContractFile(path string, pkgPath string) (*ContractFile, error) {
 			}
 			curLemma = &Lemma{Name: m[2], Pkg: pkgPath, Params: bs, File: path, Line: rl.line}
 			cur = nil
+			curBinding = nil
 			if kw == "axiom" {
 				cf.Axioms = append(cf.Axioms, curLemma)
 			} else {
